@@ -398,6 +398,11 @@ func length3(flatCoords []float64, offset int, endss [][]int, stride int) float6
 }
 
 func reverse1(flatCoords []float64, offset, end, stride int) {
+	if stride == 0 {
+		// A geometry without a layout has no coordinates to reverse, and the
+		// loop below would never advance.
+		return
+	}
 	for i, j := offset+stride, end; i <= j; i, j = i+stride, j-stride {
 		for k := range stride {
 			flatCoords[i-stride+k], flatCoords[j-stride+k] = flatCoords[j-stride+k], flatCoords[i-stride+k]
